@@ -65,6 +65,7 @@ void harness(void)
    * one read): the second time it is already in flight and must be re-registered, not registered twice */
   if (old != NULL) M_attach(q, old, 1004);
 #endif
+  if (old != NULL) old_total0 = old->total_queries; /* requests carried so far (incl. an earlier transmission of this one) */
   q->try_count = vp_range(0, 5);
   VP_ASSUME(q->try_count < NSRV * M_ch.tries); /* ares_requeue_query's budget check let it through */
   tries0  = q->try_count;
